@@ -88,13 +88,15 @@ CHECKS["C18"] = {
     "rule": "Engine B: the repository sources are rewritten at check time (go build -overlay) so that every mutex, atomic, channel, timer, socket and goroutine-spawn "
             "operation is a scheduling point; for each closed scenario (S1 CreatePermission vs lifetime timer, S2 ChannelBind vs lifetime timer, S3 Refresh vs lifetime timer + re-Allocate, "
             "S4 peer datagram vs Refresh0, S5 permission refresh vs permission timer, S6 channel refresh vs channel timer, S7 Connect/duplicate Connect/Refresh on a TCP allocation, "
-            "S8 Server.Close vs request vs peer datagram, S10 two stream clients on one manager; lifecycle callbacks yield) ALL schedules with at most 2 (thorough 3) preemptions are executed "
+            "S8 Server.Close vs request vs peer datagram, S10 two stream clients on one manager; client side: K1 PerformTransaction vs response vs retransmission timer vs Close, K1b two transactions with crossed responses, "
+            "K2 two WriteTo on one new peer, K3 relayed-socket Close vs WriteTo vs inbound Data indication, K5 ReadFrom vs inbound vs Close, against a scripted TURN server thread; lifecycle callbacks yield) ALL schedules with at most 2 (thorough 3) preemptions are executed "
             "on the real code by prefix replay; timers whose deadline is within 1ms may fire at any point. Verdicts: panic in any thread, deadlock, lock held when its holder exits, "
             "unlock of unlocked mutex, harness thread that must complete but never does. A class is (scenario => sorted verdict set). "
             "Plus lockpaths: a model extracted mechanically from the sources at check time - every control-flow path (each if/switch/select arm, loops taken 0 and 1 times with a state-preservation check on the back edge, "
             "every return / break / continue / panic) of every function and function literal that calls Lock/RLock on a sync.Mutex/RWMutex, abstract state = multiset of held lock expressions + deferred unlocks; every exit "
             "must have held minus deferred = empty; also re-lock of a held mutex and unlock of an unheld one. Data races themselves are NOT decided by this family (see DESIGN section 7).",
     "parts": [A("sched", "./checks/c18", "TestC18Sched", overlay=True, gomaxprocs=1, budget={"quick": 120, "thorough": 2400}),
+              A("client-sched", "./checks/bsem", "TestC18Client", overlay=True, gomaxprocs=1, budget={"quick": 120, "thorough": 2400}),
               A("lockpaths", "./checks/c18", "TestC18LockPaths", nshards=1, budget={"quick": 60, "thorough": 60}),
               A("race", "./checks/c18", "TestC18Race", race=True, sampling=True, budget={"quick": 90, "thorough": 900})],
 }
@@ -245,7 +247,8 @@ CHECKS["C12"] = {
             "afterwards a late response for every finished id is delivered and a fresh transaction must still complete (read loop alive), then Close, 10 s of silence, sockets closed, bubble drains. "
             "A class is (answer kind, noise, write-error kind, close kind -> observed completion).",
     "parts": [A("single", "./checks/c12", "TestC12Single", budget={"quick": 60, "thorough": 900}),
-              A("concurrent", "./checks/c12", "TestC12Concurrent", budget={"quick": 60, "thorough": 900})],
+              A("concurrent", "./checks/c12", "TestC12Concurrent", budget={"quick": 60, "thorough": 900}),
+              A("sched", "./checks/bsem", "TestC12Sched", overlay=True, gomaxprocs=1, budget={"quick": 90, "thorough": 1500})],
 }
 
 CHECKS["C13"] = {
@@ -260,7 +263,8 @@ CHECKS["C13"] = {
             "Stress: 1100-datagram bursts with no reader, 3000 with a slow reader, 12 ConnectionAttempts with nobody in Accept, 16384 distinct peers, payload lengths 0..24 (thorough 0..64) with and without a leading magic "
             "cookie as ChannelData and as Data indication. A class is (start, event [context] => outcome tokens); a state is the canonical model key.",
     "parts": [A("histories", "./checks/c13", "TestC13Histories", gomaxprocs=2, budget={"quick": 90, "thorough": 1500}),
-              A("stress", "./checks/c13", "TestC13Stress", budget={"quick": 60, "thorough": 120})],
+              A("stress", "./checks/c13", "TestC13Stress", budget={"quick": 60, "thorough": 120}),
+              A("sched", "./checks/bsem", "TestC13Sched", overlay=True, gomaxprocs=1, budget={"quick": 120, "thorough": 1800})],
 }
 
 ENGINES = [
